@@ -85,9 +85,20 @@ fix_error:
 }
 
 func fix_error(json string, pos int, err error) error {
+	// the parser works on a padded copy: a token that runs into the padding is
+	// reported behind the end of the input
+	inside := func(p int) int {
+		if p > len(json) {
+			return len(json)
+		}
+		if p < 0 {
+			return 0
+		}
+		return p
+	}
 	if e, ok := err.(SyntaxError); ok {
 		return SyntaxError{
-			Pos: int(e.Pos) + pos,
+			Pos: inside(int(e.Pos) + pos),
 			Src: json,
 			Msg: e.Msg,
 		}
@@ -95,7 +106,7 @@ func fix_error(json string, pos int, err error) error {
 
 	if e, ok := err.(MismatchTypeError); ok {
 		return &MismatchTypeError{
-			Pos:  int(e.Pos) + pos,
+			Pos:  inside(int(e.Pos) + pos),
 			Src:  json,
 			Type: e.Type,
 		}
